@@ -79,6 +79,88 @@ def zero_width_guards(prog, rule, tab):
                                  "without consuming input" % tree_text(badc), tb.term.get("line"))
 
 
+def grow_rule(prog, cfg):
+    """A buffer grows only when the demand exceeds its capacity.  For every realloc(buf, S): the capacity is S itself (if
+    it is an lvalue) and every lvalue that S is copied into afterwards; the nearest `if` that decides whether the
+    realloc is reached and that compares the capacity with something must have the capacity on the smaller side of
+    the edge taken towards the realloc (`len + need > cap`, `cap - len <= need`, `count == size`).  With the operands
+    exchanged the test is true from the first fragment on and the buffer is regrown geometrically on every call: the
+    heap held is exponential in the number of fragments instead of linear in the input."""
+    from ..model import strip_casts, is_var, tree_text, walk, const_of
+    r = Rule("R15.7", "a realloc guarded by a comparison with the buffer's capacity is reached on the edge where the capacity is the smaller side", floor=4 if cfg == "default" else 0)
+    for f in sorted(prog.funcs.values(), key=lambda f: f.key):
+        n = 0
+        for b, i, e in f.calls():
+            if e.get("callee") != "realloc" or len(e.get("args", [])) != 2:
+                continue
+            st = strip_casts(e["args"][1]["tree"])
+            caps = set()
+            svar = None
+            if isinstance(st, list) and st and st[0] in ("var", "member"):
+                caps.add(tree_text(st))
+                if st[0] == "var":
+                    svar = st[1]
+            if svar is not None:
+                for b2, i2, d in f.events("assign"):
+                    if d.get("op") == "=" and "rhs" in d and is_var(d["rhs"]["tree"], svar) and d.get("lhs_tree") is not None:
+                        caps.add(tree_text(strip_casts(d["lhs_tree"])))
+            if not caps:
+                continue
+            loops = f.loops()
+            # walk the deciding branches from the nearest outwards
+            dom = f.dominators()
+            found = None
+            for tb in sorted((f.blocks[x] for x in dom.get(b.id, ()) if x != b.id), key=lambda x: -len(dom[x.id])):
+                if not tb.term or "cond" not in tb.term or len(tb.succ) < 2 or None in tb.succ[:2]:
+                    continue
+                # the condition of a loop that does not contain the realloc (`do new <<= 1; while(need >= new)`) asks
+                # whether the *new* capacity suffices: the opposite question
+                if any(tb.id in body and b.id not in body for h, body in loops):
+                    continue
+                c = strip_casts(tb.term["cond"].get("full_tree") or tb.term["cond"]["tree"])
+                cmps = [x for x in walk(c) if isinstance(x, list) and x and x[0] == "bin" and x[1] in ("<", "<=", ">", ">=", "==")]
+                hit = None
+                for x in cmps:
+                    lt, rt = tree_text(strip_casts(x[2])), tree_text(strip_casts(x[3]))
+                    lcap = any(tree_text(y) in caps for y in walk(x[2]) if isinstance(y, list) and y and y[0] in ("var", "member"))
+                    rcap = any(tree_text(y) in caps for y in walk(x[3]) if isinstance(y, list) and y and y[0] in ("var", "member"))
+                    if const_of(x[2]) is not None or const_of(x[3]) is not None:
+                        continue            # an overflow or emptiness test, not a comparison with the demand
+                    if lcap != rcap:
+                        hit = (x, lcap)
+                        break
+                if hit is None:
+                    continue
+                # which edge leads to the realloc
+                t_reach = b.id in f.reachable_from([tb.succ[0]], stop=lambda bid: bid == tb.id) or tb.succ[0] == b.id
+                f_reach = b.id in f.reachable_from([tb.succ[1]], stop=lambda bid: bid == tb.id) or tb.succ[1] == b.id
+                if t_reach == f_reach:
+                    continue
+                found = (tb, hit, t_reach)
+                break
+            if found is None:
+                continue
+            tb, (x, lcap), on_true = found
+            n += 1
+            key = "realloc(%s)#%d" % (tree_text(e["args"][0]["tree"]), n)
+            op = x[1]
+            if op == "==":
+                r.ok(f, key, "regrown when the count has reached the capacity (`%s`)" % tree_text(x), e["line"])
+                continue
+            # cap side smaller when the condition holds?
+            cap_smaller_if_true = (lcap and op in ("<", "<=")) or ((not lcap) and op in (">", ">="))
+            # a subtraction on the capacity side (`cap - len <= need`) keeps the orientation; nothing else to normalise
+            if cap_smaller_if_true == on_true:
+                r.ok(f, key, "reached on the edge of `%s` where the capacity is the smaller side" % tree_text(x), e["line"])
+            else:
+                r.bad(f, key, "the realloc is reached when `%s` is %s, i.e. when the capacity (%s) is the *larger* side: the buffer is regrown although "
+                              "it is big enough (on every fragment, geometrically), and not when it is too small" % (
+                                  tree_text(x), "true" if on_true else "false", ", ".join(sorted(caps))), e["line"])
+    for i in r.insts:
+        i.config = cfg
+    return r
+
+
 def run_config(prog, tab, cfg):
     r = Rule("R15.4", "decoders hold heap proportional to the input: zero-width elements are refused in input-counted loops; "
                       "allocations sized by a decoded length are bounded by the input present", floor=2 if cfg == "default" else 0)
@@ -90,4 +172,4 @@ def run_config(prog, tab, cfg):
     c15_taint.alloc_rule(prog, r, tab)
     for i in r.insts:
         i.config = cfg
-    return [r]
+    return [r, grow_rule(prog, cfg)]
